@@ -4,7 +4,7 @@
    looked up by phase ordinal); it runs the generated kernels of Gen_tensors. *)
 From Coq Require Import Reals ZArith List Permutation.
 From PV Require Import Num NumR Model_voigt Proofs_tensors_alg Proofs_tensors_rot
-  Proofs_tensors_maps Inst_tensors Proofs_voigt.
+  Proofs_tensors_maps Proofs_tensors_proj Inst_tensors Proofs_voigt Model_decomp Proofs_decomp Proofs_voigt2.
 From PV.gen Require Import Gen_tensors.
 Import ListNotations.
 Open Scope R_scope.
@@ -43,3 +43,42 @@ Theorem C10_avg_single_aligned : forall tensors assemblage phis (m : @mineral Nu
   voigt_averages [m] assemblage phis tensors = Ok res ->
   forall k, (k < 36)%nat -> nth 0 res zeroA k = m_C tensors m k.
 Proof. exact avg_single_aligned. Qed.
+
+(* K and G are linear functionals of the Voigt matrix ... *)
+Theorem C10_KG_linear_functionals : forall M : arr NumR,
+  Kof M = (M 0%nat + M 6%nat + M 12%nat + (M 1%nat + M 7%nat + M 13%nat) + (M 2%nat + M 8%nat + M 14%nat)) / 9 /\
+  Gof M = ((M 0%nat + M 28%nat + M 35%nat) + (M 7%nat + M 21%nat + M 35%nat) + (M 14%nat + M 21%nat + M 28%nat) - 3 * Kof M) / 10.
+Proof. exact KG_formula. Qed.
+
+(* ... and every term of the weighted sum has the moduli of its single crystal, whatever the
+   grain orientation (any A with A A^T = I): the moduli of the average are texture independent.
+   PARTIAL: the final summation step (K(avg) = sum_m phi_m K(C_m) when the fractions sum to one)
+   is not stated as a Coq theorem; it is checked at run time by the property oracle. *)
+Theorem C10_avg_moduli_partial : forall tensors (m : @mineral NumR) i n,
+  sym6 (m_C tensors m) -> orth (mat3 (transpose3 (g_orient m i n))) ->
+  Kof (grain_voigt tensors m i n) = Kof (m_C tensors m) /\
+  Gof (grain_voigt tensors m i n) = Gof (m_C tensors m).
+Proof. exact grain_moduli. Qed.
+
+(* replacing a grain orientation A by A.Q^T rotates that grain's contribution by Q (for ALL
+   matrices Q).  PARTIAL: the lifting through the (linear) sum is not stated in Coq. *)
+Theorem C10_avg_corotates_partial : forall C o Q : arr NumR, sym6 C ->
+  let C4 := k_voigt_to_elastic_tensor C in
+  eq4b (t4 (k_voigt_to_elastic_tensor (k_elastic_tensor_to_voigt
+              (k_rotate C4 (transpose3 (matmul3 o (transpose3 Q)))))))
+       (t4 (k_rotate (k_voigt_to_elastic_tensor (k_elastic_tensor_to_voigt
+              (k_rotate C4 (transpose3 o)))) Q)).
+Proof. exact grain_corotates. Qed.
+
+(* the order of the mineral list does not matter (the phase order does not matter because
+   both lookups, stiffness by ordinal and fraction by position of the phase, are by identity;
+   PARTIAL: simultaneous permutation of (assemblage, fractions) is not stated in Coq) *)
+Theorem C10_avg_order_independent_partial : forall tensors assemblage phis (ms ms' : list (@mineral NumR)) ng i k,
+  Permutation ms ms' ->
+  weighted_sum tensors assemblage phis ms ng i k = weighted_sum tensors assemblage phis ms' ng i k.
+Proof. exact weighted_sum_perm. Qed.
+
+Example C10_nonvacuous :
+  consistent [m_example] /\ is_identity (g_orient m_example 0 0) /\ g_frac m_example 0 0 = 1 /\
+  m_phi [0%Z] [1] m_example = 1 /\ orth (mat3 (transpose3 (g_orient m_example 0 0))).
+Proof. exact C10_nonvacuous_proof. Qed.
